@@ -16,20 +16,27 @@ def run(ctx):
     mc = ["Kex", "HostKey", "CompCS", "CompSC", "CipherMacCS", "CipherMacSC", "Whole"]
     if ctx.thorough:
         mc.append("WholeBig")
-    for m in mc:
-        ctx.tlc_must_hold("SSHNegotiate_MC", cfg="SSHNegotiate_%s.cfg" % m, timeout=900)
-    gens = ["GenKex", "GenCipherMacCS", "GenCipherMacSC", "GenWhole"] + (["GenWholeBig"] if ctx.thorough else [])
+    from concurrent.futures import ThreadPoolExecutor
+    vlib = __import__("vlib")
+    # independent TLC runs side by side (JVM start-up dominates these small models)
+    with ThreadPoolExecutor(max_workers=8) as pool:
+        fm = [pool.submit(ctx.tlc_must_hold, "SSHNegotiate_MC", cfg="SSHNegotiate_%s.cfg" % m, workers=2, timeout=900) for m in mc + ["E2E"]]
+        gens = ["GenKex", "GenCipherMacCS", "GenCipherMacSC", "GenWhole", "GenE2E"] + (["GenWholeBig"] if ctx.thorough else [])
+        fg = {g: pool.submit(ctx.tlc_must_hold, "SSHNegotiate_MC", cfg="SSHNegotiate_%s.cfg" % g, workers=1, timeout=1800, count=False) for g in gens}
+        for f in fm:
+            f.result()
+        gen = {g: f.result() for g, f in fg.items()}
     for g in gens:
-        r = ctx.tlc_must_hold("SSHNegotiate_MC", cfg="SSHNegotiate_%s.cfg" % g, workers=1, timeout=1800, count=False)
+        if g == "GenE2E":
+            continue
+        r = gen[g]
         ctx.log("%s: %d behaviours" % (g, len(r.traces)))
         if not r.traces:
-            raise __import__("vlib").Infra("generator %s produced no behaviours" % g)
+            raise vlib.Infra("generator %s produced no behaviours" % g)
         res = ctx.go_test("c28", "TestReplay", cases=r.traces, timeout=900)
         ctx.absorb(res)
     # end-to-end: the same rule through real connections (sendKexInit assembles the KEXINITs from the configs)
-    ctx.tlc_must_hold("SSHNegotiate_MC", cfg="SSHNegotiate_E2E.cfg", timeout=900)
-    r = ctx.tlc_must_hold("SSHNegotiate_MC", cfg="SSHNegotiate_GenE2E.cfg", workers=1, timeout=1800, count=False)
-    e2e = r.traces
+    e2e = gen["GenE2E"].traces
     if not e2e:
         raise __import__("vlib").Infra("E2E generator produced nothing")
     if not ctx.thorough:
